@@ -55,5 +55,5 @@ Proof. intros. apply contains_after_remove_any. Qed.
 
 (* the reordering "negative cache first" is not safe: witness *)
 Lemma absent_first_refuted :
-  contains_local [ChkFullExact; ChkAbsent; ChkItems] (sd_add (mksd [] false [] [] (Some [7])) 7) 7 = Some false.
+  contains_local [ChkFullExact; ChkAbsent; ChkItems] (sd_add (mksd [] false [] [] (Some [7]) None) 7) 7 = Some false.
 Proof. reflexivity. Qed.
